@@ -645,14 +645,14 @@ def run(ctx):
     v = detect_variant()
     ctx.extra["variant_under_test"] = dict(v)
     ctx.count("variant:relctx=%s,rootfrom=%s" % (v["relctx"], v["rootfrom"]))
-    if not (v["relctx"] and v["rootfrom"]):
-        # the repaired behaviour (commits 9f7c670, 4ab2467) is the expected one: falling back to the as-found
-        # behaviour is a regression, reported here and by the corpus replays
+    if not (v["relctx"] and v["rootfrom"] and v["case3abs"]):
+        # the repaired behaviour (commits 9f7c670, 4ab2467, 0b4a7b3) is the expected one: falling back to the
+        # as-found behaviour is a regression, reported here and by the corpus replays
         ctx.violation({"kind": "variant", "variant": dict(v),
-                       "broken": "MoveModule behaves like the as-found variant again (relctx=%s, rootfrom=%s): the headline "
-                                 "theorems C05_move_module_refs_repaired / C05_move_to_root_refs_repaired no longer "
-                                 "speak about the code" % (v["relctx"], v["rootfrom"])},
-                      "C05: MoveModule no longer shows the repaired behaviour (relative from-imports / root destination)",
+                       "broken": "MoveModule behaves like the as-found variant again (relctx=%s, rootfrom=%s, case3abs=%s): the "
+                                 "headline theorems C05_move_module_refs_repaired / C05_move_to_root_refs_repaired no "
+                                 "longer speak about the code" % (v["relctx"], v["rootfrom"], v["case3abs"])},
+                      "C05: MoveModule no longer shows the repaired behaviour (relative from-imports / root destination / absolute Case 3)",
                       no_input=True)
     from harness import c05_layout
     c05_layout.run(ctx)
